@@ -305,5 +305,35 @@ MUTANTS += [
 ]
 
 
+# ---------------------------------------------------------------------- rules of seed rounds l / sa
+MUTANTS += [
+    # P-IDMONO: the id counter handed back on removal
+    B("c01-remove-edge-hands-id-back", "C01", H, "        del self._weights[self._edge_list[edge]]\n        del self._edge_list[edge]\n", "        del self._weights[self._edge_list[edge]]\n        del self._edge_list[edge]\n        self._next_edge_id = len(self._edge_list)\n", "P-IDMONO"),
+    # M-NONE on mutators: an explicit {} treated like an omitted argument
+    B("c04-add-edge-metadata-truthiness", "C04", M, "        if metadata is not None:\n            self._edge_metadata[e_id] = metadata\n", "        if metadata:\n            self._edge_metadata[e_id] = metadata\n", "M-NONE"),
+    # S-HASHFIELDS record:always
+    B("c07-hash-skips-nodes-without-metadata", "C07", H, "            nodes.append({\"node\": node, \"metadata\": self._node_metadata[node]})", "            if self._node_metadata[node]:\n                nodes.append({\"node\": node, \"metadata\": self._node_metadata[node]})", "S-HASHFIELDS"),
+    # G-TRISTATE
+    B("c16-matching-flag-truthiness", "C16", SAMP, "        if self.matching_sequences is None:\n", "        if not self.matching_sequences:\n", "G-TRISTATE"),
+    # G-PYTRAP: identity of node labels
+    B("c01-remove-node-identity-filter", "C01", H, "tuple(sorted([n for n in edge if n != node]))", "tuple(sorted([n for n in edge if n is not node]))", "G-PYTRAP"),
+    OKV("c01-benign-remove-node-not-equal", "C01", H, "tuple(sorted([n for n in edge if n != node]))", "tuple(sorted([n for n in edge if not n == node]))"),
+    # D-ROWALIGN
+    B("c18-stationary-state-from-dict-values", "C18", RW, "    K = np.array(transition_matrix(HG).todense())\n    stationary_state = np.linalg.solve(np.eye(K.shape[0]) - K.T, np.ones(K.shape[0]))\n", "    strength = {node: 0 for node in HG.get_nodes()}\n    for l in HG.get_edges():\n        for node in l:\n            strength[node] += (len(l) - 1) ** 2\n    stationary_state = np.array(list(strength.values()), dtype=float)\n", "D-ROWALIGN"),
+]
+
+# ---------------------------------------------------------------------- rules of seed round sb
+MUTANTS += [
+    # K-KEY of the insertion primitive, from C07: the membership test on the un-sorted tuple
+    B("c07-add-edge-looks-up-unsorted-key", "C07", H, "        edge = tuple(sorted(edge))\n        order = len(edge) - 1\n\n        if edge not in self._edge_list:\n", "        edge = tuple(edge)\n\n        if edge not in self._edge_list:\n            edge = tuple(sorted(edge))\n", "K-KEY"),
+    # M-ROWMAP: rows numbered by the sub-hypergraph's encoder, mapping of the parent
+    B("c09-by-order-returns-parent-mapping", "C09", LIN, "        return_mapping=True,\n    )\n\n    incidence = binary_incidence.multiply(hypergraph.get_weights(order=order)).tocsr()\n", "        return_mapping=True,\n    )\n    if keep_isolated_nodes:\n        mapping = get_inverse_mapping(hypergraph.get_mapping())\n\n    incidence = binary_incidence.multiply(hypergraph.get_weights(order=order)).tocsr()\n", "M-ROWMAP"),
+    # I-SCRATCH: psiBarOmega recomputed on one branch only
+    B("c17-psibar-only-for-non-isolates", "C17", MT, "            self._update_psiBarOmega(i)\n\n            if i not in self.isolates:\n", "            if i not in self.isolates:\n                self._update_psiBarOmega(i)\n", "I-SCRATCH"),
+    # V-PERSIZE: the threshold of an earlier size carried over
+    B("c19-fdr-threshold-carried-over", "C19", SVH, '    links = 0\n    links_order = {}\n    for order in sorted(pvalues):\n        n_a = len(set(np.concatenate(list(pvalues[order].keys()))))\n        n_possible = binom(n_a, order)\n        bonf = 0.01 / n_possible\n\n        temp_df = pd.DataFrame(pvalues[order].items())\n        temp_df.columns = ["edge", "pvalue"]\n        ps = np.sort(temp_df.pvalue)\n        k = np.arange(1, len(ps) + 1) * bonf\n        try:\n            fdr = k[ps < k][-1]\n        except:\n            fdr = 0\n        temp_df["fdr"] = temp_df["pvalue"] < fdr\n', '    fdr = 0\n    for order in sorted(pvalues):\n        n_a = len(set(np.concatenate(list(pvalues[order].keys()))))\n        n_possible = binom(n_a, order)\n        bonf = 0.01 / n_possible\n\n        temp_df = pd.DataFrame(pvalues[order].items())\n        temp_df.columns = ["edge", "pvalue"]\n        ps = np.sort(temp_df.pvalue)\n        k = np.arange(1, len(ps) + 1) * bonf\n        passing = k[ps < k]\n        if len(passing) > 0:\n            fdr = passing[-1]\n        temp_df["fdr"] = temp_df["pvalue"] < fdr\n', "V-PERSIZE"),
+]
+
+
 def for_property(prop: str) -> List[Mutant]:
     return [m for m in MUTANTS if m.prop == prop]
